@@ -5,6 +5,7 @@ signer).  Every mutant of subject, signature packet or key is classified by the 
 only mutants the reference confirms to be *semantic* (the reference rejects them; encoding-equivalent ones are filtered out) are asserted.
 Expected outcome of a semantic mutant under PGPKey.verify: falsy or an exception -- never truthy.
 """
+import copy
 import warnings
 from datetime import datetime, timezone, timedelta
 
@@ -20,7 +21,7 @@ RULE = ('case = (base triple: signer algorithm x signature kind x hash x produce
 ASSUMPTIONS = ['vf.ref.sig decides whether a mutant is semantic (validated on fixtures and against gpg in C02)', 'cryptography/OpenSSL primitives',
                'forgery across a 64-bit key-id collision is not attempted']
 MIN_COUNTERS = {'quick': {'semantic_mutants': 20000, 'baseline_true': 60, 'sig_bitflips': 10000, 'subject_mutants': 2000, 'key_mutants': 300,
-                          'wrong_verifier': 20, 'type_confusion': 200, 'carrier_mutants': 2000, 'message_content_edits': 300, 'several_signature_subjects': 90},
+                          'wrong_verifier': 20, 'type_confusion': 200, 'carrier_mutants': 2000, 'message_content_edits': 300, 'several_signature_subjects': 90, 'copies_of_altered_signatures': 2000},
                 'thorough': {'semantic_mutants': 100000, 'baseline_true': 200}}
 BUDGET = {'quick': (600, 1500), 'thorough': (1800, 3600)}
 TECHNIQUE = 'runtime monitoring: data-fault injection (bit flips, edits, type confusion, wrong verifier) with an independent-verifier oracle that filters equivalent mutants'
@@ -179,6 +180,17 @@ def _sigflip(ctx, d, pgpy, key, subj, sig, sigbytes, refsubj, sm):
             except Stalled:
                 res = 'error:stalled'
         judge(ctx, klass, res, 'signature-bit-flip', d, {'bit': b, 'region': _region(sigbytes, b // 8), 'mutated_sig': hx(m)})
+        if s2 is not None and klass == 'invalid' and b % 3 == 0:
+            # a copy of the altered signature is the same altered signature (public twins, copied keys and messages hold such copies)
+            try:
+                with time_limit(10):
+                    cres, _ = sigwork.pgpy_verify(key, subj, copy.copy(s2))
+                    ccres, _ = sigwork.pgpy_verify(key, subj, copy.copy(copy.copy(s2)))
+            except Stalled:
+                cres = ccres = 'error:stalled'
+            ctx.count('copies_of_altered_signatures')
+            judge(ctx, klass, cres, 'copy-of-signature-bit-flip', d, {'bit': b, 'region': _region(sigbytes, b // 8), 'mutated_sig': hx(m)})
+            judge(ctx, klass, ccres, 'copy-of-copy-of-signature-bit-flip', d, {'bit': b, 'mutated_sig': hx(m)})
     # structural edits of the packet: other sigtypes / algorithm ids / hash ids, r<->s swap, subpacket deletion/duplication/reorder
     pk = wire.split(sigbytes)[0]
     body = pk.body
